@@ -44,6 +44,17 @@ CLAIMS['C12'] = dict(
     note=("Three fixed parameter sets on one small synthetic reference; histories of length <= 7 sampled by TLC simulation "
           "(quick) plus all histories of length 4 over 2 parameter sets (thorough); version tampering edits metadata.json."),
     technique="TLA+ state machine + TLC; spec-generated histories replayed into the implementation", ref='6 C12')
+CLAIMS['C11'] = dict(
+    text=("spec/Annotation.tla defines gene/transcript coordinate maps, sequence extraction, ORF and Sec positions from the "
+          "GTF features; AnnotationTrace has TLC compare, for every position of every gene and transcript of each generated "
+          "annotation, what GenomicAnnotationOnDisk / TranscriptAnnotationModel return (incl. rejected intronic and out-of-range "
+          "positions), checks the inverse laws on the spec side, and requires fully parsed, indexed and write->re-read models to "
+          "equal the GTF's features. spec/PointerCache.tla models the bounded pointer cache; TLC enumerates every lookup "
+          "history (<= 6 lookups, 4 keys + absent key, sizes 2 and 3; simulation at the real size 10) and each is replayed "
+          "into GenePointerDict/TranscriptPointerDict with the returned model compared to the fully parsed one."),
+    note=("Annotations are synthetic (introns >= 2 nt, one chromosome, GENCODE-style attributes); GTF text is parsed by the "
+          "harness independently to obtain the expected features; cache size is lowered through the module constant."),
+    technique="TLA+ definitional spec + TLC validation of recorded observations; TLC-enumerated cache histories replayed", ref='6 C11')
 PENDING = "not claimed in this revision: check not built yet (work in progress, see DESIGN.md section 12)"
 NA = {}
 
